@@ -70,11 +70,33 @@ def answerCore (fs : List (String × String)) : E String := do
       let separated := decide (tolPow 10 * scaleM < muMin - s)
       let co := certBottom N d M none Y true separated scaleM tolY tolY tolC
       if !co.ok then return s!"res=FAIL:certificate:{co.why} {certLine co} {describe c}"
+      -- flat-manifold clause: for exactly flat data every returned column is an affine function of the intrinsic
+      -- coordinates, i.e. lies in span{1, T} (orthonormal basis by Gram–Schmidt at Fix precision)
+      let mut flatS := "-"
+      match (if co.below == some (d + 1) then field? fs "flat" else none) with
+      | none => if (field? fs "flat").isSome then flatS := "skipped(null-space-larger-than-d+1)"
+      | some ft =>
+        match parseRows parseFix ft with
+        | none => throw "bad flat"
+        | some T =>
+          if !(rect T N d) then throw "flat shape"
+          let cols0 : List (DVec N Fix) := (DVec.ofFn fun _ => (1 : Fix)) ::
+            (List.finRange d).map fun c => DVec.ofFn fun i : Fin N => (T[i.1]!)[c.1]!
+          let Q := gramSchmidt Fix.sqrt [] cols0
+          let mut worst : Fix := 0
+          for c in [0:d] do
+            let y : DVec N Fix := DVec.ofFn fun i : Fin N => (Y[i.1]!)[c]!
+            let r := Q.foldl gsSub y
+            for i in List.finRange N do
+              worst := fmax worst (fabs (r.get i))
+          flatS := log2Str worst (maxAbsArr Y)
+          if !(worst ≤ tolPow 18 * maxAbsArr Y) then
+            return s!"res=FAIL:flat:not-affine dev={flatS} {certLine co}"
       -- correspondence: what was handed to the solver, how it was called, what was returned
       if !c.ok then return s!"res=BROKEN:solver-input {describe c} approx={N * N}"
       if hook != s!"1,1,1,0,{d}" then return s!"res=BROKEN:solver-call calls,skip,smallest,gen,td={hook}"
       if (cmpArr 0 Y vecs).maxdev.m ≠ 0 then return "res=BROKEN:embedding-is-not-the-solver-output"
-      return s!"res=ok {describe c} {certLine co} sep={separated} approx={N * N + N * d}"
+      return s!"res=ok {describe c} {certLine co} sep={separated} flat={flatS} approx={N * N + N * d}"
     else throw s!"unknown op {op}"
   else throw "N=0"
 
